@@ -328,7 +328,14 @@ def rule_neuter(ctx: Ctx, rep: Report) -> None:
     rep.ob(rule, "version_mapped", kw2.get("version", "").startswith("xpubversion_from_xprvversion("), fi.where(), f"version = {kw2.get('version')}")
 
 
+def rule_own_fields(ctx: Ctx, rep: Report) -> None:
+    """C07.own_fields: an object hands its own fields to the functions it delegates to (see sigcommon.rule_own_fields_forwarded)."""
+    from rules.sigcommon import rule_own_fields_forwarded
+    rule_own_fields_forwarded(ctx, rep, "C07.own_fields", ('btclib.bip32.bip32',), 3)
+
+
 RULES = [
+    ("C07.own_fields", rule_own_fields),
     ("C07.hardened_pub", rule_hardened_pub),
     ("C07.invalid_child", rule_invalid_child),
     ("C07.no_skip", rule_no_skip),
